@@ -41,3 +41,17 @@ pub fn unflushed<W: Write>(w: W, v: u64) -> std::io::Result<()> {
 pub fn narrow_mask(n: usize) -> usize {
     (n + 63) & !(u64::BITS - 1) as usize
 }
+
+/// C10.R7: an iterator returned after a scan that consumed the item it stopped at.
+pub fn scan_and_hand_on(v: &[usize], limit: usize) -> (usize, std::slice::Iter<'_, usize>) {
+    let mut seen = 0;
+    let mut iter = v.iter();
+    while let Some(x) = iter.next() {
+        if *x <= limit {
+            seen += 1;
+        } else {
+            break;
+        }
+    }
+    (seen, iter)
+}
